@@ -261,8 +261,8 @@ def scenarios(tier):
         out.append(Scenario(f"{label}: free window of 1 octet at every offset", window_path(label, msg, 1, 0, n),
                             bounds={"message_octets": n, "window": 1, "offsets": f"0..{n - 1}", "decoders": "all seven, each as the remembered one"}, domains=("decoders", "p1"), frontier=1, assumptions=A, replay_cap=30,
                             engine_opts={"path_time_limit": 120}, path_budget=8))
-        if not q:
-            hdr = min(n, 40)
+        if not q and n <= 24:
+            hdr = min(n, 12)
             out.append(Scenario(f"{label}: free window of 2 octets over the first {hdr} offsets", window_path(label, msg, 2, 0, hdr), bounds={"window": 2, "offsets": f"0..{hdr - 1}"},
                                 domains=("decoders", "p1"), frontier=1, assumptions=A, replay_cap=30, engine_opts={"path_time_limit": 120}, path_budget=8))
         out.append(Scenario(f"{label}: every truncation", truncation_path(label, msg), bounds={"truncations": f"0..{n - 1}"}, domains=("decoders", "p1"), frontier=1, assumptions=A, replay_cap=30,
